@@ -132,6 +132,11 @@ func (s *SequencerSyncer) Sync(ctx context.Context, header *types.Header) error 
 	} else {
 		start = uint64(syncedUntil.BlockNumber + 1)
 	}
+	if start < s.SyncStartBlockNumber {
+		// A reorg close to the sync start rolls the sync status back to a block before it. Events
+		// older than the configured start must not be synced.
+		start = s.SyncStartBlockNumber
+	}
 	endBlock := header.Number.Uint64()
 	log.Debug().
 		Uint64("start-block", start).
